@@ -29,6 +29,8 @@ func gen(g *kernel.Rng, seed uint64, tier string) *kernel.Plan {
 	base := uint64(0)
 	if g.Bool(0.05) {
 		base = math.MaxUint64 - 4096
+	} else if g.Bool(0.05) {
+		base = 1<<63 - 4096 // the counter crosses the sign bit of an int64
 	}
 	off := uint64(g.OneOf(0, 0, 1, 100, 1<<40, 4000))
 	p.Cfg["first"] = int64(base + off)
@@ -242,9 +244,12 @@ func run(p *kernel.Plan) (res *kernel.Result) {
 	sort.SliceStable(src.changes, func(i, j int) bool { return src.changes[i].at < src.changes[j].at })
 	// direction must be unambiguous: every value lies less than 2^62 above the band's base
 	base := src.first
-	if base > 1<<63 {
+	switch {
+	case base >= math.MaxUint64-4096:
 		base = math.MaxUint64 - 4096
-	} else {
+	case base >= 1<<63-4096:
+		base = 1<<63 - 4096
+	default:
 		base = 0
 	}
 	for _, ch := range append([]change{{0, src.first}}, src.changes...) {
@@ -282,6 +287,24 @@ func run(p *kernel.Plan) (res *kernel.Result) {
 		}
 	}
 	res.Stat("getters_refused_before_start", 4)
+	{
+		// a meter that was closed without ever being started has not been started either
+		var g2 getters
+		if p.C("kind") == 0 {
+			m := kxps.NewKrps(nil, src)
+			m.Close()
+			g2 = getters{[3]func() float64{m.Rps10s, m.Rps30s, m.Rps300s}, m.Average}
+		} else {
+			m := kxps.NewKbps(nil, src)
+			m.Close()
+			g2 = getters{[3]func() float64{m.Kbps10s, m.Kbps30s, m.Kbps300s}, m.Average}
+		}
+		for i, f := range append(g2.r[:], g2.a) {
+			if _, pan := safe(f); !pan {
+				return res.Fail("C20/read-before-start-accepted", "getter %d returned a value on a meter that was closed but never started", i)
+			}
+		}
+	}
 	time.Sleep(time.Duration(p.C("startAt")) * time.Millisecond)
 	if err := start(); err != nil {
 		return res.Fail("C20/start-error", "%v", err)
